@@ -123,6 +123,9 @@ func WriteProgram(dir string, p *Program) (string, map[string]string) {
 	srcs := map[string]string{}
 	for _, f := range p.Files {
 		src := RenderFile(f)
+		if p.Layout == "tight" {
+			src = tightLayout(src)
+		}
 		srcs[f.Name] = src
 		full := filepath.Join(dir, f.Name)
 		os.MkdirAll(filepath.Dir(full), 0o755)
